@@ -15,6 +15,8 @@ the proxy locally or starts an introspection (objects.py): the walk over the `in
               else: need_introspection = True            # only ever SET, never reset
       if not need_introspection: return succeed(RemoteDBusObject(self, busName, objectPath, ifl))
   d = introspectRemoteObject(...)       # the proxy then lists what the introspection found; `required` must be among it
+                                        # (`IntrospectionFailed` otherwise: NOT modelled, no stream requests an interface
+                                        # the remote object lacks)
 
 `known` is the caller's process-wide `DBusInterface.knownInterfaces` (name -> interface, a dict).  The introspection
 itself is C15's (`Proofs/Net/Introspected.lean`: `introspectedProxy`).  Core Lean only.
@@ -74,9 +76,5 @@ def getRemoteObjectPlan (known : List (String × Iface)) (dest : Nat) (path : St
   | some l =>
     let r := scanIfaceArgs known l ([], false)
     if r.2 then .introspect (l.map IfaceArg.reqName) else .built { dest := dest, path := path, ifaces := r.1 }
-
-/-- `missing = required_interfaces - {q.name for q in ifaces}`; non-empty: `IntrospectionFailed` -/
-def missingAfterIntrospection (required : List String) (found : List Iface) : List String :=
-  required.filter (fun n => !(found.any (fun q => q.name == n)))
 
 end Txdbus.Net
